@@ -437,6 +437,8 @@ def run(ctx: Ctx) -> None:
     ctx.call(replaced_run_policies, "12")
     ctx.call(inflight_not_a_status, "1i")
     ctx.call(replay_budget, "5b")
+    # a failed configuration step of an object creation is a spent try of the creation ("executed again exactly while tries remain")
+    ctx.call(T.t_a2b, "13/T.A2b")
 
 
 NODE = "cartgraph/node.py"
